@@ -769,19 +769,20 @@ class PivotTableLast(PivotTableAbstract):
     aggregate_func = staticmethod(methods.pivot_agg_last)
 
 
-def _series_to_row(out):
-    """One-row frame holding a per-column partial result.
+def _concat_partials(inputs):
+    """Concatenate per-partition partial results (one row per partition).
 
     A partial result over columns of different dtypes (e.g. float and bool) is
-    an object Series; transposed as-is every column of the row would be
-    object-typed, and pandas then no longer treats NaN as missing when the rows
-    are reduced again (``max(skipna=False)`` ignored NaN, ``min`` returned an
-    arbitrary value). Restore the per-column dtypes.
+    an object Series, so the transposed one-row frames have object columns, and
+    pandas does not treat NaN as missing in object columns when the rows are
+    reduced again (``max(skipna=False)`` ignored NaN, ``min`` returned an
+    arbitrary value). Restore the per-column dtypes of the concatenated rows
+    (column-wise, so that a column that is genuinely mixed stays as it is).
     """
-    row = out.to_frame().T
-    if out.dtype == object:
-        row = row.infer_objects()
-    return row
+    df = _concat(inputs)
+    if is_dataframe_like(df) and (df.dtypes == object).any():
+        df = df.infer_objects()
+    return df
 
 
 class Reduction(ApplyConcatApply):
@@ -817,20 +818,20 @@ class Reduction(ApplyConcatApply):
     def chunk(cls, df, **kwargs):
         out = cls.reduction_chunk(df, **kwargs)
         # Return a dataframe so that the concatenated version is also a dataframe
-        return _series_to_row(out) if is_series_like(out) else out
+        return out.to_frame().T if is_series_like(out) else out
 
     @classmethod
     def combine(cls, inputs: list, **kwargs):
         func = cls.reduction_combine or cls.reduction_aggregate or cls.reduction_chunk
-        df = _concat(inputs)
+        df = _concat_partials(inputs)
         out = func(df, **kwargs)  # type: ignore[misc]
         # Return a dataframe so that the concatenated version is also a dataframe
-        return _series_to_row(out) if is_series_like(out) else out
+        return out.to_frame().T if is_series_like(out) else out
 
     @classmethod
     def aggregate(cls, inputs, **kwargs):
         func = cls.reduction_aggregate or cls.reduction_chunk
-        df = _concat(inputs)
+        df = _concat_partials(inputs)
         return func(df, **kwargs)
 
     def __dask_postcompute__(self):
